@@ -6,6 +6,14 @@ use crate::prelude::{Box, Vec, index_set_new, vec};
 use crate::value::{CheapClone, ExoticObject, Guarded, JsMapKey, JsValue, PropertyKey};
 
 /// Initialize Set.prototype with add, has, delete, clear, forEach methods
+/// A key -0 is stored as +0 (the keys compare equal, and +0 is what iteration shows)
+fn plus_zero(v: JsValue) -> JsValue {
+    match v {
+        JsValue::Number(n) if n == 0.0 => JsValue::Number(0.0),
+        other => other,
+    }
+}
+
 pub fn init_set_prototype(interp: &mut Interpreter) {
     let proto = interp.set_prototype.clone();
 
@@ -89,7 +97,7 @@ pub fn set_constructor(
             let mut set = set_obj.borrow_mut();
             if let ExoticObject::Set { ref mut entries } = set.exotic {
                 for value in items {
-                    entries.insert(JsMapKey(value));
+                    entries.insert(JsMapKey(plus_zero(value)));
                 }
                 let len = entries.len();
                 set.set_property(size_key, JsValue::Number(len as f64));
@@ -118,7 +126,7 @@ pub fn set_add(
     let mut set = set_obj.borrow_mut();
 
     if let ExoticObject::Set { ref mut entries } = set.exotic {
-        entries.insert(JsMapKey(value));
+        entries.insert(JsMapKey(plus_zero(value)));
         let len = entries.len();
         set.set_property(size_key, JsValue::Number(len as f64));
     }
